@@ -1,0 +1,6 @@
+//go:build !verif
+
+package dbft
+
+// verifReplay is a no-op unless the package is built with the `verif` tag.
+func (d *DBFT[H]) verifReplay(*inbox[H]) {}
